@@ -598,7 +598,11 @@ func (s *Session) writeChunk(b []byte) (n int, err error) {
 	// Stop writing when deadline is reached.
 	var timeC <-chan time.Time
 	if writeDeadline := s.writeDeadline.Load(); writeDeadline != 0 {
-		timeC = time.After(time.Until(time.UnixMicro(writeDeadline)))
+		remaining := time.Until(time.UnixMicro(writeDeadline))
+		if remaining <= 0 {
+			return 0, stderror.ErrTimeout
+		}
+		timeC = time.After(remaining)
 	}
 
 	seqBeforeWrite, _ := s.sendQueue.MinSeq()
@@ -699,6 +703,10 @@ func (s *Session) writeChunk(b []byte) (n int, err error) {
 	for {
 		select {
 		case <-s.sendQueue.chanEmptyEvent:
+			shouldReturn = true
+		case <-timeC:
+			// The data is already queued. Stop waiting when the write
+			// deadline is reached. The next write returns a timeout error.
 			shouldReturn = true
 		// do not consume s.sendQueue.chanNotEmptyEvent,
 		// because it is used to drive the output loop.
